@@ -51,6 +51,10 @@ var (
 func installHook() {
 	hookOnce.Do(func() {
 		leveldb.VerifSetCommitHook(func(e leveldb.VerifEdit) {
+			if f, ok := openHooks.Load(e.Stor); ok {
+				f.(func(leveldb.VerifEdit))(e)
+				return
+			}
 			x, ok := outs.Load(e.Stor)
 			if !ok {
 				return
@@ -643,6 +647,21 @@ func main() {
 			}
 			return
 		}
+		var wo struct {
+			Case koReplay `json:"case"`
+		}
+		if err := json.Unmarshal(b, &wo); err == nil && wo.Case.W != nil && wo.Case.What == "open-bytes" {
+			res.Eval("replay", true)
+			res.Eval("replay2", true)
+			installHook()
+			if m := replayOpen(&wo.Case, res); m != "" {
+				fmt.Println("replay fails:", m)
+				res.Violate(m, wo.Case)
+			} else {
+				fmt.Println("replay passes")
+			}
+			return
+		}
 		if err := json.Unmarshal(b, &wr); err != nil || wr.Case.W == nil {
 			fmt.Println("cannot parse replay:", err)
 			return
@@ -863,6 +882,17 @@ func main() {
 		nb = 64
 	}
 	writeByteCases(res, a.Out, kByteCases(root, res, nb, 120000), 16)
+	// (K) the composed Open on whole crash images (every file as bytes): Store/OpenPath.v open_bytes
+	{
+		no := 96
+		if a.Thorough() {
+			no = 800
+		}
+		oroot := vlib.NewRNG(a.Seed ^ 0x6f70656e)
+		oc := kOpenCases(oroot, res, no, 30000, 140000)
+		oc = append(oc, kOpenDirected(oroot, res)...)
+		writeOpenCases(res, a.Out, oc, 16)
+	}
 	// manifests of real DBs: (P) against the reference replay and the DB's own version, (K) against the Coq model
 	krec = append(krec, realManifestChecks(recRoot, res, a.Thorough())...)
 	writeRecordCases(res, a.Out, krec, 12, 250000)
